@@ -4,6 +4,7 @@
   combination values.  (Per-combination laws: `Props/C06.lean`.)
 -/
 import PCV.Proofs.MarlinLCComplete
+import PCV.Proofs.MarlinLCShift
 import PCV.Props.C01_MarlinBatch
 set_option linter.unusedSectionVars false
 
@@ -43,6 +44,26 @@ theorem marlin_lc_claimed_value (trips : List (Trip' F)) (z : F) (lc : LC.LinCom
       (lookupLast (fun (t : Trip' F) => t.1.label) l trips).isSome) :
     lcPolyValue trips z lc.terms + lcConstant lc = LC.value lc (evalAssign trips z) :=
   (lc_value_split trips z lc hall).symm
+
+/-- **A changed claimed value — anywhere, any number of them — is not accepted** except on the explicit
+exceptional set: from an accepted combination opening, the claimed values shifted by ANY function `δ`
+of (equation label, point) are accepted iff `h · Σₖ ρₖ · ⟨κₖ, dsₖ⟩ = 0` (point labels `k`, verifier
+randomizers `ρₖ`, challenge weights `κₖ`, shifts `dsₖ` of the equations queried under label `k`).  A
+changed coefficient, constant term or underlying evaluation changes the TRUE value of the equation, i.e.
+it is a shift of the claimed value relative to the truth (`marlin_lc_claimed_value`), so all four kinds of
+change of the property are instances. -/
+theorem marlin_lc_values_iff (vk : VK F) (comms : List (LComm F)) (lcs : List (LC.LinComb F))
+    (qs : List (Query F)) (evals : List ((Label × F) × F)) (δ : Label × F → F)
+    (πs : List (KZG.Proof F)) (ξs rs : List F) (lcComms : List (LComm F))
+    (trip : List (F × F × F)) (rest : List F)
+    (hcc : combineAllComm comms lcs = .ok lcComms)
+    (hc : combineGroups vk lcComms (adjustEvals lcs evals) (groupQueries qs) ξs = .ok (trip, rest))
+    (hlen : πs.length = trip.length)
+    (hacc : checkCombinations vk comms lcs qs evals πs ξs rs = .ok true) :
+    checkCombinations vk comms lcs qs (shiftEvals δ evals) πs ξs rs = .ok true ↔
+      vk.vk.h * KZG.wsum 1 rs
+        (groupShifts vk lcComms (adjustEvals lcs evals) δ (groupQueries qs) ξs) = 0 :=
+  checkCombinations_shift_iff vk comms lcs qs evals δ πs ξs rs lcComms trip rest hcc hc hlen hacc
 
 /-! non-vacuity over `ZMod 101`: the two polynomials of `C01.exBatch`, the combinations
 `a = 2·p₁ − p₂ + 5` and `b = 0·p₁ + p₂`, `a` queried at two points, `b` at one of them -/
